@@ -14,10 +14,11 @@ import MenelausVerif.Driver.Inject
 import MenelausVerif.Driver.LFR
 import MenelausVerif.Driver.ErrDetectors
 import MenelausVerif.Driver.PCACD
+import MenelausVerif.Driver.Adwin
 open MV.Driver
 
 def registry : List (List String → Option Machine) :=
-  [mkElection, mkLifecycle, mkSequential, mkEnsemble, mkNNSP, mkMD3, mkInject, mkLFR, mkErrDetectors, mkPCACD]
+  [mkElection, mkLifecycle, mkSequential, mkEnsemble, mkNNSP, mkMD3, mkInject, mkLFR, mkErrDetectors, mkPCACD, mkAdwin]
 
 def mkMachine (ts : List String) : Option Machine :=
   registry.findSome? (fun f => f ts)
